@@ -1610,6 +1610,7 @@ def work_C10(run, rng, budget):
             key = "int-literal-over-4300-digits" if max((len(x) for x in __import__("re").findall(r"[0-9]+", s)), default=0) > 4300 \
                 else "rejected-with-foreign-exception"
             run.fail(key, f"{s[:60]!r}…: {real}", {"string": s})
+    huge_count_probe(run, "C10")
     if budget > 1:
         for _ in range(5 * budget):
             s, spec = TG.gen_sentence(rng, max_elems=3, max_count=4)
@@ -1621,8 +1622,9 @@ def work_C10(run, rng, budget):
                     run.fail("rejected-with-foreign-exception", f"{e[:80]!r}: {real}", {"string": e})
     return "sentences generated from the grammar (Hill-order traps, counts 1/2-9/>=10, repeated and reversed tuples, attribute " \
            "blocks) and 25 random single-token insertions/deletions/replacements/transpositions of each, plus a boundary list " \
-           "(Hill vs alphabetical with/without C, count 1, leading zeros, index n+1, shared-prefix symbols, 4300-digit literals); " \
-           "accept/reject, exception type and graph of the real parser compared with the Lean reference reader; distinct by string"
+           "(Hill vs alphabetical with/without C, count 1, leading zeros, index n+1, shared-prefix symbols, 4300-digit literals, attribute values of 4299/4300/4301 digits); " \
+           "accept/reject, exception type and graph of the real parser compared with the Lean reference reader; distinct by string; " \
+           "six bond-free sentences stating 65 536 to 120 000 atoms go through the real parser only (reference denotation by the harness)"
 
 
 # =====================================================================================
@@ -1907,6 +1909,34 @@ def slow_refinement_shapes(budget):
     return out
 
 
+HUGE_COUNT_SENTENCES = [("He100000/", {"He": 100000}), ("C50000H50001/", {"C": 50000, "H": 50001}), ("H120000/", {"H": 120000}),
+                        ("C65536/", {"C": 65536}), ("H32768Og32768/", {"H": 32768, "Og": 32768}), ("Cl99999Na/", {"Cl": 99999, "Na": 1})]
+
+
+def huge_count_probe(run, prop):
+    """Sentences whose sum formula states tens of thousands of atoms (no bonds): far beyond what the model's driver evaluates in
+    reasonable time (its association lists are quadratic), so the real parser alone is run and its result compared with the
+    reference denotation: the stated number of atoms, of the stated elements, by increasing atomic number, no bonds."""
+    for s, counts in HUGE_COUNT_SENTENCES:
+        run.case((prop + "huge", s), True)
+        run.stats["huge_count_sentence"] += 1
+        try:
+            with limit(CALL_LIMIT_S):
+                h, err = safe(graph_from_tucan, s)
+        except CallTimeout:
+            run.fail("parser-does-not-return", f"{s!r}: no result after {CALL_LIMIT_S} s", {"string": s})
+            continue
+        if err is not None:
+            run.fail("sentence-rejected" if prop == "C10" else "parser-raises-" + type(err).__name__,
+                     f"{s!r} ({sum(counts.values())} atoms): {type(err).__name__}", {"string": s})
+            continue
+        want = [sy for sy in sorted(counts, key=lambda x: G.Z[x]) for _ in range(counts[sy])]
+        got = [h.nodes[i].get("element_symbol") for i in range(h.number_of_nodes())] if set(h.nodes) == set(range(len(want))) else None
+        if got != want or h.number_of_edges() != 0:
+            run.fail("parsed-graph-is-not-the-denoted-one", f"{s!r}: {h.number_of_nodes()} atoms, {h.number_of_edges()} bonds",
+                     {"string": s})
+
+
 def work_C15(run, rng, budget):
     import resource
     for name, n, edges in slow_refinement_shapes(budget):
@@ -1955,6 +1985,7 @@ def work_C15(run, rng, budget):
         if err is not None:
             run.fail("parser-raises-on-pipeline-output", f"{name}: {type(err).__name__}", {"family": name, "atoms": n})
         run.sample({"family": name, "atoms": n, "len": len(s)})
+    huge_count_probe(run, "C15")
     # correspondence on the depth-linear families at sizes the model handles quickly
     for name, n, edges in [("path", k, G.sk_path(k)) for k in (1, 2, 5, 30, 61)] + [("cycle", 40, G.sk_cycle(40)), ("ladder", 40, G.sk_ladder(20)),
                                                                                       ("comb", 40, G.sk_comb(20))]:
@@ -1980,7 +2011,7 @@ def work_C15(run, rng, budget):
            "random carbon graphs), " \
            "paths, cycles, ladders, combs, peptide backbones up to thousands of atoms, 3000 isolated atoms, 1000 two-atom components, K40, " \
            "stars with thousands of leaves, deep binary trees, square grids, K30,30, hundreds of identical rings " \
-           "through the real pipeline and parser; model/real round counts compared on the same families at <= 61 atoms; every " \
+           "through the real pipeline and parser; bond-free sentences stating up to 120 000 atoms through the real parser; model/real round counts compared on the same families at <= 61 atoms; every " \
            "family/size is a distinct non-trivial case"
 
 
